@@ -172,7 +172,8 @@ class EFLRItem:
 
         _bytes = b''
         for attr in self.attributes.values():
-            if attr.value is None:
+            if attr.value is None or attr.count == 0:
+                # no value (or an empty list of values) -> absent attribute
                 _bytes += b'\x00'
             else:
                 _bytes += attr.get_as_bytes()
